@@ -1615,6 +1615,11 @@ class ContractionTree:
 
         # make sure all flops and size information has been populated
         tree.contract_stats()
+        # ... including the involved indices, which are not cached yet when
+        # legs, flops and size were supplied directly on node creation, and
+        # which can't be recomputed once the leaves have been reset below
+        for node in tree.children:
+            tree.get_involved(node)
 
         d = tree.size_dict[ind]
         if project is None:
